@@ -57,7 +57,7 @@ def run(chk, facts, tier):
                 op = ops[0] if ops else '?'
                 seen.add(op)
                 conds = [c for c, o in fn.guards(st)]
-                inst = [c for c in conds if mentions(c, 'defered_conn_event_counter_') and any(x.cn == 'connection_event_counter' for x in c.calls())]
+                inst = [c for c in conds if mentions(c, 'defered_conn_event_counter_') and deep_calls(c, 'connection_event_counter')]
                 ok = bool(inst)
                 why = 'the PDU is deferred without testing whether its instant already passed: a past instant blocks received data for up to 65536 events instead of terminating the link'
                 if ok:
